@@ -4,6 +4,7 @@ import (
 	"fmt"
 	"go/token"
 	"go/types"
+	"strings"
 
 	"golang.org/x/tools/go/ssa"
 )
@@ -390,7 +391,16 @@ func checkC09(e *Engine, r *Report) {
 		}
 		rel, alloc := self("ReleaseResources"), self("AllocateResources")
 		isRel := func(in ssa.Instruction) bool { return e.IsCallTo(in, fset(rel)) || isCallOfObj(in, backendRelease) }
-		isAlloc := func(in ssa.Instruction) bool { return e.IsCallTo(in, fset(alloc)) }
+		// an allocation: AllocateResources itself or any same-receiver helper it is a thin wrapper of (allocateResources)
+		allocSet := fset(alloc)
+		if alloc != nil {
+			for _, cal := range e.Edges(alloc) {
+				if cal.Signature.Recv() != nil && alloc.Signature.Recv() != nil && types.Identical(cal.Signature.Recv().Type(), alloc.Signature.Recv().Type()) && strings.HasPrefix(strings.ToLower(cal.Name()), "allocate") {
+					allocSet[cal] = true
+				}
+			}
+		}
+		isAlloc := func(in ssa.Instruction) bool { return e.IsCallTo(in, allocSet) }
 		nr, na := 0, 0
 		var firstAlloc ssa.Instruction
 		AllInstrs(fn, func(in ssa.Instruction) {
@@ -426,7 +436,7 @@ func checkC09(e *Engine, r *Report) {
 					return
 				}
 				a := callArgs(in.(ssa.CallInstruction))
-				ok := len(a) == 2 && isElementOfParam(a[1], pr.param)
+				ok := len(a) >= 2 && isElementOfParam(a[1], pr.param)
 				r.Check("R1:sync-iterates-"+pr.what+"@"+FnName(fn), "R1 release pairing", "Sync's "+pr.what+" loop handles exactly the elements of its "+pr.what+" parameter", e.InstrPos(in), fn, ok, "", true)
 			})
 		}
